@@ -20,7 +20,7 @@ PROP = "C18"
 CONDS = ["scalar_poly_n0", "scalar_poly_n1", "scalar_poly_n2", "scalar_poly_n3", "mixed_components_k0",
          "mixed_components_k1", "mixed_components_k2", "mixed_components_k3", "symmetric_components", "symmetric_in_mixed", "mixed_first_symmetric_last",
          "piola_on_manifold", "enriched_sub_element", "nested_mixed", "arguments_enriched", "piola_flat_then_manifold",
-         "wrappers", "compound", "piecewise", "quadrilateral_cells", "curved_geometry"]
+         "wrappers", "compound", "piecewise", "quadrilateral_cells", "curved_geometry", "list_of_components"]
 
 
 def run(spec):
